@@ -94,6 +94,10 @@ def write_coqproject():
         dd = os.path.join(COQ, d)
         if os.path.isdir(dd):
             files += sorted(os.path.join(d, f) for f in os.listdir(dd) if f.endswith(".v") and not f.startswith("."))
+    ex = os.path.join(COQ, "EXCLUDE")
+    if os.path.exists(ex):
+        skip = {l.strip() for l in open(ex) if l.strip() and not l.startswith("#")}
+        files = [f for f in files if f not in skip]
     write_if_changed(os.path.join(COQ, "_CoqProject"), COQPROJECT_HEAD + "\n".join(files) + "\n")
 
 
